@@ -104,6 +104,16 @@ def pseudo_reflect(cls, args):
         names = {v.name for v in rvars}
         inputs = OrderedDict((k, d) for k, d in arg.inputs.items() if k not in names)
         return Pseudo("reduce", args, inputs, {v.name: v.output for v in rvars}, op=op, arg=arg, reduced_vars=rvars)
+    if name == "Independent" and len(args) == 4:
+        fn, reals_var, bint_var, diag_var = args
+        # the class refuses a `fn` without the diagonal input; its meaning fn(x_i = x[i]).reduce(add, i) is then
+        # just the sum over the plate
+        if isinstance(fn, Funsor) and diag_var not in fn.inputs and bint_var in fn.inputs:
+            v = Variable(bint_var, fn.inputs[bint_var])
+            inputs = OrderedDict((k, d) for k, d in fn.inputs.items() if k != bint_var)
+            return Pseudo("reduce", (ops.add, fn, frozenset([v])), inputs, {bint_var: v.output}, op=ops.add, arg=fn,
+                          reduced_vars=frozenset([v]))
+        return None
     if name == "Contraction" and len(args) >= 4:
         red_op, bin_op, rvars = args[:3]
         terms = args[3] if len(args) == 4 and isinstance(args[3], tuple) else tuple(args[3:])
@@ -406,6 +416,26 @@ def _den(t, env):
             parts = [_den(x, e) for x in t.terms]
             vals.append(parts[0] if len(parts) == 1 else _fold(t.bin_op, parts))
         return np.asarray(_fold(t.red_op, vals))
+    if type(t).__name__ == "Delta":
+        total = np.asarray(0.0)
+        for name, (point, logd) in t.terms:
+            x = np.asarray(env[name], dtype=np.float64)
+            pt = np.asarray(_den(point, env), dtype=np.float64)
+            hit = x.shape == pt.shape and bool(np.all(x == pt))
+            total = total + (np.asarray(_den(logd, env), dtype=np.float64) if hit else -np.inf)
+        return np.asarray(total)
+    if type(t).__name__ == "Scatter":
+        # value at the destination point: fold `op` over the reduced assignments whose indices hit the point
+        # (the unit of `op` where nothing is scattered)
+        unit = ops.UNITS.get(t.op)
+        if unit is None:
+            raise OracleUnsupported("scatter op without unit")
+        acc = np.asarray(float(unit))
+        for a in _assignments(t.reduced_vars):
+            e = {**env, **a}
+            if all(int(np.asarray(_den(v, e))) == int(env[k]) for k, v in t.subs):
+                acc = np.asarray(t.op(acc, _den(t.source, e)))
+        return acc
     raise OracleUnsupported(type(t).__name__)
 
 
